@@ -213,6 +213,65 @@ func ruleC07LengthGuard(c *Ctx) {
 					}
 					c.check(ok, construct, u.ipos(i), "bound is dominated by the matching length test", "a slice bound on the decrypt path is not protected by a dominating length check: a short or truncated input panics (slice bounds out of range) instead of returning an error")
 				}
+			case *ssa.IndexAddr, *ssa.Index:
+				// constant index into a slice of run-time length (e.g. kmsKeks[0] of a decoded envelope)
+				var base, idx ssa.Value
+				switch y := i.(type) {
+				case *ssa.IndexAddr:
+					base, idx = y.X, y.Index
+				case *ssa.Index:
+					base, idx = y.X, y.Index
+				}
+				if _, isSlice := base.Type().Underlying().(*types.Slice); !isSlice {
+					return
+				}
+				k, isC := constOf(idx)
+				if !isC {
+					return
+				}
+				if _, fresh := resolve(base).(*ssa.MakeSlice); fresh {
+					return
+				}
+				if sl, isSl := base.(*ssa.Slice); isSl {
+					if a, isA := sl.X.(*ssa.Alloc); isA && (a.Comment == "varargs" || a.Comment == "slicelit" || a.Comment == "makeslice") {
+						return
+					}
+				}
+				kv, _ := constantInt64(k)
+				n++
+				c.CallSites++
+				c.FuncsAnalysed[shortName(f)] = true
+				ok := false
+				for _, fct := range factsAt(i.Block()) {
+					bo, isB := fct.V.(*ssa.BinOp)
+					if !isB {
+						continue
+					}
+					cmp := func(lenSide, other ssa.Value) (int64, bool) {
+						if !isLenOf(lenSide, base) {
+							return 0, false
+						}
+						kk, isK := constOf(other)
+						if !isK {
+							return 0, false
+						}
+						v, _ := constantInt64(kk)
+						return v, true
+					}
+					if v, isL := cmp(bo.X, bo.Y); isL {
+						switch {
+						case bo.Op == token.GTR && fct.True && v >= kv, // len > v
+							bo.Op == token.GEQ && fct.True && v > kv, // len >= v
+							bo.Op == token.LEQ && !fct.True && v >= kv, // !(len <= v)
+							bo.Op == token.LSS && !fct.True && v > kv, // !(len < v)
+							bo.Op == token.EQL && !fct.True && v == 0 && kv == 0, // len != 0
+							bo.Op == token.NEQ && fct.True && v == 0 && kv == 0,
+							bo.Op == token.EQL && fct.True && v > kv: // len == v
+							ok = true
+						}
+					}
+				}
+				c.check(ok, trimPkgDirs(shortName(f))+"/index["+k.ExactString()+"]", u.ipos(i), "constant index dominated by a length test", "element "+k.ExactString()+" of a slice whose length comes from decoded input is accessed without a dominating length check: an empty or short list (e.g. a key envelope without entries) panics with index out of range instead of producing an error")
 			case *ssa.MakeSlice:
 				for _, sz := range []ssa.Value{x.Len, x.Cap} {
 					bo, isB := resolve(sz).(*ssa.BinOp)
